@@ -80,6 +80,12 @@ def step (l : String) : String :=
     match Car.nodeAt (unhex bytes) 0 sz.toNat! (unhex c) with
     | some d => s!"ok {d.length} {hexNat (H.xxhash64 d).toNat 16}"
     | none => "err"
+  | ["pfetch", _variant, _kind, _key, c, _off, sz, bytes] =>
+    -- the same fetch after Epoch.GetBlock / GetTransaction ran with the prefetch flag the RPC handlers set:
+    -- prefetching must not change what a CID-addressed fetch answers
+    match Car.nodeAt (unhex bytes) 0 sz.toNat! (unhex c) with
+    | some d => s!"ok {d.length} {hexNat (H.xxhash64 d).toNat 16}"
+    | none => "err"
   | "case" :: _ => "ok"
   | _ => "bad-op"
 
